@@ -13,6 +13,8 @@ mod c13;
 mod c15;
 mod c17;
 mod c19;
+mod c05;
+mod c18;
 mod dump;
 mod gal;
 mod gen;
@@ -44,6 +46,8 @@ fn module(prop: &str) -> PropModule {
         "C17" => c17::module(),
         "C19" => c19::module(),
         "C13" => c13::module(),
+        "C05" => c05::module(),
+        "C18" => c18::module(),
         "C01" => PropModule { coq_module: "Check_Norm", runner: "Check_Norm.run_C01", generate: |r, t| libgen::generate_mixed(r, t, 320), execute: lib_stage::execute, label: libgen::label },
         "C02" => PropModule { coq_module: "Check_Norm", runner: "Check_Norm.run_C02", generate: |r, t| libgen::generate_mixed(r, t, 320), execute: lib_stage::execute, label: libgen::label },
         "C06" => PropModule { coq_module: "Check_Norm", runner: "Check_Norm.run_C06", generate: |r, t| libgen::generate_mixed(r, t, 320), execute: lib_stage::execute, label: libgen::label },
